@@ -9,6 +9,8 @@ Each example is a real program (`body`) run by the model's `step` from an initia
 spawned process; everything about the resulting states is evaluated by `decide`.
 -/
 
+namespace Conserve
+
 /-- an event table without request events, checked on the allocated part -/
 theorem noReq_of_bounded {σ : Type} (s : KState ℚ σ) (h : ∀ e, e < s.events.size → isReq s e = false) :
     ∀ e, isReq s e = false := by
@@ -64,7 +66,7 @@ def rs : Array ResRec := #[{ kind := .container, capacity := some 10, level := 1
 def s0 : KState ℚ Nat := spawned rs 0
 def s1 : KState ℚ Nat := stepSt body 5 s0
 
-theorem noTrig : ∀ st rs, (body st rs).NoTrig := fun _ _ =>
+theorem noTrig : ∀ st rs, NoTrig (body st rs) := fun _ _ =>
   .call _ _ rfl fun _ => .call _ _ rfl fun _ => .call _ _ rfl fun _ => .ret _
 
 theorem wf0 : WF s0 := spawned_wf rs 0 (queues_empty_of_all rs (by decide))
@@ -89,7 +91,7 @@ def s2 : KState ℚ Nat := stepSt body 5 s1
 def s3 : KState ℚ Nat := stepSt body 5 s2
 def s4 : KState ℚ Nat := stepSt body 5 s3
 
-theorem noTrig : ∀ st rs, (body st rs).NoTrig := fun _ _ =>
+theorem noTrig : ∀ st rs, NoTrig (body st rs) := fun _ _ =>
   .call _ _ rfl fun _ => .call _ _ rfl fun _ => .call _ _ rfl fun _ => .call _ _ rfl fun _ => .ret _
 
 theorem wf0 : WF s0 := spawned_wf rs 0 (queues_empty_of_all rs (by decide))
@@ -122,7 +124,7 @@ def s1 : KState ℚ Nat := stepSt body 5 s0
 def s2 : KState ℚ Nat := stepSt body 5 s1
 def s3 : KState ℚ Nat := stepSt body 5 s2
 
-theorem noTrig : ∀ st rs, (body st rs).NoTrig := fun _ _ =>
+theorem noTrig : ∀ st rs, NoTrig (body st rs) := fun _ _ =>
   .call _ _ rfl fun _ => .call _ _ rfl fun _ => .call _ _ rfl fun _ => .call _ _ rfl fun _ => .call _ _ rfl fun _ => .ret _
 
 theorem wf0 : WF s0 := spawned_wf rs 0 (queues_empty_of_all rs (by decide))
@@ -167,3 +169,5 @@ def s0 : KState ℚ Nat := spawned ExContainer.rs 0
 def s1 : KState ℚ Nat := stepSt body 5 s0
 
 end ExBad
+
+end Conserve
